@@ -219,6 +219,10 @@ def derivatives_thermal_numba(node_pit, branch_pit,
                 dfb_dt[i] = np.exp(- alpha * length / (cp_b[i] * mdot))
             else:
                 fb[i] = amb - t_init_i1[i]
+                # branches without flow do not contribute to the node balance (as in the numpy twin)
+                fnt[i] = 0.
+                dfnt_dt[i] = 0.
+                dfnt_dtout[i] = 0.
             dfb_dtout[i] = -1
         if branches_flow[i]:
             result_from = club_to[from_nodes[i]] if (from_nodes[i] < len(club_to)) else False
